@@ -42,6 +42,7 @@ type Config struct {
 	MainFiles []string            `json:"main_files,omitempty"` // globs (base names) of files of the root package to instrument; empty = all
 	SimOS     []string            `json:"simos_packages,omitempty"`
 	StmtYield []string            `json:"stmt_yield_files,omitempty"` // repo-relative files that get statement-level yields in goroutine bodies
+	StmtAll   []string            `json:"stmt_yield_all_files,omitempty"` // repo-relative files that get statement-level yields in every function
 	Knobs     []KnobSpec          `json:"knobs,omitempty"`
 	Overrides map[string]string   `json:"overrides,omitempty"`
 	Extra     map[string]string   `json:"extra_files,omitempty"` // overlay additions: repo-relative target -> source path
@@ -118,6 +119,10 @@ func main() {
 	for _, f := range cfg.StmtYield {
 		stmtYield[filepath.Join(*repo, f)] = true
 	}
+	stmtAll := map[string]bool{}
+	for _, f := range cfg.StmtAll {
+		stmtAll[filepath.Join(*repo, f)] = true
+	}
 	knobsByFile := map[string][]KnobSpec{}
 	knobsByDir := map[string][]KnobSpec{}
 	for _, k := range cfg.Knobs {
@@ -141,7 +146,7 @@ func main() {
 			}
 			relDir := strings.TrimPrefix(strings.TrimPrefix(filepath.Dir(path), filepath.Clean(*repo)), "/")
 			rw := &rewriter{pkg: p, file: f, fset: p.Fset, rep: rep, path: path, rel: strings.TrimPrefix(path, *repo+"/"), simos: simos[relDir] || simos["*"],
-				stmtYield: stmtYield[path], knobs: append(append([]KnobSpec(nil), knobsByFile[path]...), knobsByDir[filepath.Dir(path)]...), overrides: cfg.Overrides}
+				stmtYield: stmtYield[path], stmtAll: stmtAll[path], knobs: append(append([]KnobSpec(nil), knobsByFile[path]...), knobsByDir[filepath.Dir(path)]...), overrides: cfg.Overrides}
 			changed := rw.run()
 			if !changed {
 				continue
@@ -214,6 +219,7 @@ type rewriter struct {
 	rep       *Report
 	path, rel string
 	stmtYield bool
+	stmtAll   bool
 	knobs     []KnobSpec
 	overrides map[string]string
 	simos     bool
@@ -340,7 +346,13 @@ func (r *rewriter) run() bool {
 	// pass 2: statements and expressions
 	astutil.Apply(r.file, r.pre, r.post)
 
-	if r.stmtYield {
+	if r.stmtAll {
+		for _, d := range r.file.Decls {
+			if fd, ok := d.(*ast.FuncDecl); ok && fd.Body != nil {
+				r.yieldBlock(fd.Body)
+			}
+		}
+	} else if r.stmtYield {
 		r.insertYields()
 	}
 
